@@ -7,6 +7,7 @@ from fractions import Fraction as F
 from .. import gen_dbl, skelrun
 from ..common import Check, lake_build
 from ..diffrun import case_text, run_chunks
+from .. import exactlp
 from ..exactlp import classify_checked
 
 PID = "C03"
@@ -204,6 +205,7 @@ def run(replay=None):
     for x in lost[:2]:
         chk.violation("impl:hang-or-crash:" + x["why"][:20], f"solver run lost on {x['name']}: {x['why']}", False)
     chk.cov["verdict_matrix(class:status)"] = verdicts
+    chk.cov["fourier_motzkin_cross_checks_skipped_for_size"] = exactlp.FM_SKIPPED[0]
     chk.cov["settings_and_histories"] = {"fixed_corpus_check_duality_gap_off": sum(1 for c in cases if "fixed" in c["meta"]),
                                          "h_row_histories": sum(1 for c in cases if c["meta"]["history"] != "direct")}
     chk.cov["rule"] = ("integer grid (n<=2, entries -1/0/1, all block presences, LPs, singular P) + constructed degenerate strictly convex, "
